@@ -5,6 +5,7 @@ package fusemanager
 // Verification hooks (property C17 of /verif). Compiled only with -tags verif.
 
 import (
+	"context"
 	"encoding/json"
 
 	bolt "go.etcd.io/bbolt"
@@ -79,4 +80,18 @@ func (fm *Server) VerifCurFS() snapshot.FileSystem {
 // (the file lock goes away with the process) and the store file is kept.
 func (fm *Server) VerifCrash() error {
 	return fm.ms.Close()
+}
+
+// verifPointFn, when set, is called at the sub-step boundaries of Mount/Unmount (before the
+// fsMap update and before the fusestore write); the harness blocks there to drive interleavings
+// and crashes between sub-steps.
+var verifPointFn func(ctx context.Context, name string)
+
+// VerifSetPoint installs (or, with nil, removes) the sub-step callback.
+func VerifSetPoint(f func(ctx context.Context, name string)) { verifPointFn = f }
+
+func verifPoint(ctx context.Context, name string) {
+	if verifPointFn != nil {
+		verifPointFn(ctx, name)
+	}
 }
